@@ -20,6 +20,10 @@ def c12_jobs(tier):
         sh = 1 if q else 2
         for k in range(sh):
             js.append(mjob('solve-r%d-s%d' % (r, k), 'c12', 'mpi-plain', r, ['--sub', 'solve'] + (['--shard', '%d/%d' % (k, sh)] if sh > 1 else []), timeout=2400 if q else 5400, hang_is_violation=True))   # measured: 3-25 s per job idle, up to 390 s with the machine at load 70
+    # partly convective inputs (PMIS aggregates vanish on some ranks only): own small jobs with a short watchdog so that a reproducible hang of the
+    # setup is reported within the check (measured 2-4 s per job idle; 600 s is >= 100x that and ~10x the time seen at load 70)
+    for r in (2, 3, 4):
+        js.append(mjob('conv-r%d' % r, 'c12', 'mpi-plain', r, ['--sub', 'solve,pmis', '--convective=1'], timeout=600 if q else 1200, hang_is_violation=True))
     for r in ((2, 5) if q else (1, 2, 3, 4, 5, 6, 7, 8)):
         js.append(mjob('setup-r%d' % r, 'c12', 'mpi-plain', r, ['--sub', 'pmis,direct'], timeout=2400))
     # block size > 1 together with near-null-space vectors: separate processes (see sub_pmis in the harness)
@@ -48,14 +52,15 @@ PROPS['C12'] = dict(
          'Convergence clause: res < tol within the budget for all 8 solvers, as the property states it; for Richardson the same configuration is additionally run by rank 0 alone (MPI_COMM_SELF) and the outcome is attached to the failure detail (single_rank_reference), because plain aggregation with over-interpolation is not a convergent stationary iteration on every G2 graph even on one rank. '
          'In addition every solve job on > 1 ranks runs 12 (quick) / 48 (thorough) thin-slab cases: a 2-D G1 grid (24-48 points per line, contrast 1 in 60 %) cut into slabs of one or two grid lines per rank so that every row on every rank has an off-process coupling; every third of them with the Chebyshev smoother, the others cycling through the remaining relaxations and CG/BiCGStab/GMRES/IDR(s)/FGMRES/LGMRES/BiCGStab(L)/Richardson. '
          'pmis also checks the distributed smoothed prolongation against its definition (I - 2/3 D_F^-1 A_F) P_tent evaluated on the assembled global matrix (weak entries lumped wherever their column lives; block size 1), every fourth pmis case being an anisotropic 2-D grid (anisotropy 0.01-0.15) cut across its weak direction; every third sdd / bp case is a structurally non-symmetric convection-diffusion problem (pure upwind convection across the cuts, or vf::convdiff with deleted partners): no convergence clause there, a Krylov breakdown is not counted, the truthful-residual and rank-consistency clauses stay. '
+         'Jobs conv-r2..4 run only partly convective inputs through solve and pmis: -Laplace + p(y) du/dx upwind (p = 25 or 10-40) on the lowest third / half / quarter of the grid lines of a 12-32 x 12-36 grid cut into strips of lines, so that the strength graph is non-symmetric on some ranks only (no convergence clause, breakdowns not counted; termination by a 600 s watchdog, rank-consistency, truthful residual, partition / Galerkin / smoothed-prolongation oracles stay). '
          'pmis/direct/block/sdd/bp: seeded cases as described in the harness headers. A solve case is non-trivial when the hierarchy has >= 2 levels and the solve returned; a pmis case when it has a non-isolated unknown; distinct = distinct (sub-check, descriptor) hash.',
     # oracle history: (1) 'non-finite:*' as an unconditional failure was replaced by "reported and true residual must be non-finite together" plus the
     # convergence clause (a diverging Richardson iteration overflows; that is truthful); (2) a differential convergence clause for Richardson (only when the
     # single-rank run converges) was tried and withdrawn: the property states convergence for every combination, so the clause is absolute and the single-rank
     # outcome is reported in the failure detail; (3) over_interp = 1.75 / 2 removed from the generator (the coarse correction of a stationary iteration overshoots).
     min_nontrivial=dict(quick=400, thorough=1500),
-    require_obs=dict(quick=['solves', 'thin_slab_chebyshev_solves', 'solves_with_empty_ranks', 'solves_with_repartition', 'galerkin_entries_checked', 'partition_levels_checked', 'nullspace_entries_checked', 'direct_solves', 'smoothed_prolongation_rows_with_weak_entries', 'sdd_nonsym_solves', 'block_solves', 'sdd_solves', 'bp_solves'],
-                     thorough=['solves', 'thin_slab_chebyshev_solves', 'solves_with_empty_ranks', 'solves_with_repartition', 'galerkin_entries_checked', 'partition_levels_checked', 'nullspace_entries_checked', 'direct_solves', 'smoothed_prolongation_rows_with_weak_entries', 'sdd_nonsym_solves', 'block_solves', 'sdd_solves', 'bp_solves']),
+    require_obs=dict(quick=['solves', 'thin_slab_chebyshev_solves', 'solves_with_empty_ranks', 'solves_with_repartition', 'galerkin_entries_checked', 'partition_levels_checked', 'nullspace_entries_checked', 'direct_solves', 'partly_convective_solves', 'partly_convective_pmis_cases', 'smoothed_prolongation_rows_with_weak_entries', 'sdd_nonsym_solves', 'block_solves', 'sdd_solves', 'bp_solves'],
+                     thorough=['solves', 'thin_slab_chebyshev_solves', 'solves_with_empty_ranks', 'solves_with_repartition', 'galerkin_entries_checked', 'partition_levels_checked', 'nullspace_entries_checked', 'direct_solves', 'partly_convective_solves', 'partly_convective_pmis_cases', 'smoothed_prolongation_rows_with_weak_entries', 'sdd_nonsym_solves', 'block_solves', 'sdd_solves', 'bp_solves']),
     assumptions=COMMON_ASSUME + ['Open MPI 4.1.4 on one node, oversubscribed; message arrival orders are those of this runtime diversified by rank-seeded delays before every ghost exchange',
                                   'the convergence clause is evaluated on the generator sub-families stated in the rule (tol 1e-8 within 300 Krylov / 1000 Richardson iterations)',
                                   'ParMETIS, PT-SCOTCH and PaStiX are not installed: only partition::merge, skyline_lu and eigen_splu are exercised; rank counts above 8 are not explored'],
